@@ -835,6 +835,9 @@ class RawAlgorithmsMixIn:
         y_data = out
         D, P = x_data.shape[:2]
         y_data[0] = numpy.clip(x_data[0], a_min, a_max)
+        # (one-sided clipping: a bound given as None is infinite)
+        a_min = -numpy.inf if a_min is None else a_min
+        a_max = numpy.inf if a_max is None else a_max
         mask = numpy.logical_and(
                 numpy.less_equal(x_data[0], a_max),
                 numpy.greater_equal(x_data[0], a_min))
@@ -851,6 +854,8 @@ class RawAlgorithmsMixIn:
         if out is None:
             raise NotImplementedError('should implement that')
         xbar_data = out
+        a_min = -numpy.inf if a_min is None else a_min
+        a_max = numpy.inf if a_max is None else a_max
         tmp = numpy.zeros_like(x_data)
         numpy.multiply(
                 numpy.less_equal(x_data[0], a_max),
